@@ -8,7 +8,8 @@ qha        QHA.__init__/run/_set_thermal_expansion executed in E2 with fit_to_eo
            stubs (fresh symbols per call, arguments recorded): the energies handed to the fitter at temperature i are
            fe_phonon[i]/EvTokJmol + el[i or :] + P V/EVAngstromToGPa for all values; V(T), G(T), B(T) are the fitter's
            outputs (B scaled by EVAngstromToGPa); thermal expansion is the documented central difference; t_max selects the
-           documented number of points; the caller's input arrays are not modified.
+           documented number of points; numerical C_P = -T x three-point second difference of G(T) (numpy.polyfit through three
+           points is an exact interpolation and is evaluated as such); the caller's input arrays are not modified.
 """
 import numpy as np
 import z3
@@ -241,7 +242,14 @@ def qha_unit(u, res):
     def polyfit(x, y, deg):
         poly_calls.append(deg)
         yy = np.asarray(y, dtype=object)
-        if symnp.has_sym(yy):
+        xx = np.asarray(x, dtype=object)
+        if symnp.has_sym(yy) and not symnp.has_sym(xx) and len(xx) == deg + 1:
+            # interpolation: the least-squares polynomial of degree n-1 through n points is exact (Vandermonde solve,
+            # concrete abscissae): coefficients are linear in the symbolic ordinates
+            xv = np.array([float(t) for t in xx])
+            Vinv = np.linalg.inv(np.vander(xv, deg + 1))
+            return symnp.as_symarr(np.dot(Vinv.astype(object), yy), 'f')
+        if symnp.has_sym(yy) or symnp.has_sym(xx):
             return symnp.wrap_reals([z3.Real("poly%d_%d" % (len(poly_calls), k)) for k in range(deg + 1)])
         return np.zeros(deg + 1)
     el_in = symnp.wrap_reals(els, (nV,) if el_ndim == 1 else (nT, nV))
@@ -262,6 +270,7 @@ def qha_unit(u, res):
                 q.run()
                 VT = list(q.volume_temperature); GT = list(q.gibbs_temperature); BT = list(q.bulk_modulus_temperature)
                 beta = list(q.thermal_expansion)
+                cpn = list(q.heat_capacity_P_numerical)
             finally:
                 qc.fit_to_eos = old_fit
                 if old_pf is None:
@@ -300,6 +309,28 @@ def qha_unit(u, res):
             res.unconfirmed.append({"key": key0 + ":beta%d" % i, "what": "thermal expansion is not (V[i+1]-V[i-1])/(T[i+1]-T[i-1])/V[i]"})
         elif v == "unknown":
             res.notes.append("inconclusive beta %d" % i)
+    # C_P (numerical) = -T d^2G/dT^2 by the documented three-point second difference of the fitted Gibbs energies
+    lhs, rhs = [], []
+    for i in range(len(cpn)):
+        if i == 0:
+            want = z3.RealVal(0)
+        else:
+            g = [z3.Real("fit%d_E" % k) for k in (i - 1, i, i + 1)]
+            t = [Fraction(float(temps[k])) for k in (i - 1, i, i + 1)]
+            # second divided difference x 2 = second derivative of the interpolating parabola
+            dd = ((g[2] - g[1]) / (t[2] - t[1]) - (g[1] - g[0]) / (t[1] - t[0])) / (t[2] - t[0])
+            want = -2 * dd * t[1] * Fraction(float(EvTokJmol)) * 1000
+        lhs.append(harness.to_term(cpn[i])); rhs.append(want)
+    fitbox = []
+    for k in range(len(stub.calls)):
+        fitbox += [z3.Real("fit%d_E" % k) >= -10, z3.Real("fit%d_E" % k) <= 10]
+    goal = z3.Or([z3.Or(a - b > Fraction(1, 10 ** 4), b - a > Fraction(1, 10 ** 4)) for a, b in zip(lhs, rhs)])
+    v, m = solve(res, "C_P (numerical) at T[i] == -T[i] x second difference of G(T) x EvTokJmol x 1000; 0 at the first point", pc + fitbox + [goal], timeout_ms=30000)
+    if v == "sat":
+        ok2, what = replay_cp()
+        (res.violations if ok2 else res.unconfirmed).append({"key": key0 + ":cp_numerical", "what": what, "replay": {"unit": [str(x) for x in u]}})
+    elif v == "unknown":
+        res.notes.append("inconclusive cp_numerical")
     # caller's arrays untouched
     same = all(a.eq(b) if isinstance(a, z3.ExprRef) else a == b for a, b in zip(symnp.unwrap(el_in), el_before)) and \
         all(a.eq(b) if isinstance(a, z3.ExprRef) else a == b for a, b in zip(symnp.unwrap(fe_in), fe_before)) and \
@@ -311,6 +342,31 @@ def qha_unit(u, res):
     res.twins.append({"name": "qha twin: fitter was called", "verdict": "sat" if stub.calls else "unsat"})
     res.samples.append({"unit": res.unit, "fit_calls": len(stub.calls), "polyfit_calls": len(poly_calls), "symbols": len(els) + len(fes) + 1})
     return res
+
+
+def replay_cp():
+    """concrete: Gibbs energies that are exactly quadratic in T give C_P = -T G'' at every interior point"""
+    import phonopy.qha.core as qc
+    from phonopy.units import EvTokJmol
+    temps = np.array([0.0, 100.0, 200.0, 300.0, 400.0]); vols = np.array([60.0, 62.0, 64.0, 66.0, 68.0])
+    a, b, c = -3e-6, 2e-4, -1.0
+    old = qc.fit_to_eos
+    calls = []
+
+    def fake(volumes, fe, eos):
+        k = len(calls); calls.append(k)
+        t = temps[k]
+        return [a * t * t + b * t + c, 0.5, 4.0, 64.0 + 0.001 * t]
+    qc.fit_to_eos = fake
+    try:
+        q = qc.QHA(vols, np.zeros(5), temps, np.ones((5, 5)), np.ones((5, 5)), np.zeros((5, 5)), eos="vinet")
+        q.run()
+        cp = np.array(q.heat_capacity_P_numerical)
+    finally:
+        qc.fit_to_eos = old
+    want = np.array([0.0] + [-2 * a * t * EvTokJmol * 1000 for t in temps[1:len(cp)]])
+    d = float(np.abs(cp - want).max())
+    return d > 1e-6, "numerical C_P differs by %.3g J/K/mol from -T d2G/dT2 for Gibbs energies exactly quadratic in T" % d
 
 
 def _ground(res, name, ok, key, what):
@@ -383,7 +439,7 @@ def main(tier, seed):
     harness.setup()
     us = units(tier)
     chk.bounds = ["EOS parameters: V0 in (0,1000), B0 in (0,100), B0' in (1.5,10)", "QHA: 5 volumes x 5 temperatures, electronic energies of shape (V) and (T,V), pressure symbolic in [0,50] GPa or None, t_max None / T[2] / T[3]"]
-    chk.outside = ["recovery of parameters by scipy.optimize.leastsq (the fitter is a contract stub)", "polynomial fits of C_V and S (numpy.polyfit stubbed)", "heat_capacity_P_polyfit, Grueneisen parameter values"]
+    chk.outside = ["recovery of parameters by scipy.optimize.leastsq (the fitter is a contract stub)", "degree-4 polynomial fits of C_V and S in volume (numpy.polyfit stubbed unless it is an exact interpolation)", "heat_capacity_P_polyfit, Grueneisen parameter values"]
     chk.assumptions = ["pow/exp uninterpreted with the instances pow(1,c)=1, exp(0)=1; x/x -> 1 under V0 != 0", "fit_to_eos returns four unconstrained symbols per call"]
     chk.run_units(run_unit, us)
     return chk.finish()
